@@ -179,7 +179,13 @@ pub fn run_c06(ctx: &Ctx) {
                 continue;
             }
         };
-        counter.store(0, Ordering::SeqCst); // independence from C07
+        // Half of the trials zero the counter themselves (so that this verdict does not depend on C07);
+        // the other half leave it to the library, as a user would: earlier trials through the same call
+        // site, many of which ended in a mismatch or a caught panic, are then earlier installations.
+        let harness_reset = rep % 2 == 0;
+        if harness_reset {
+            counter.store(0, Ordering::SeqCst);
+        }
         let mut inj = ip::lib(InjectorPP::new);
         ip::lib(|| install(&mut inj, arm, pair));
         // the calls: k matching + m non-matching, shuffled, dealt round-robin to t threads
@@ -293,6 +299,8 @@ pub fn run_c06(ctx: &Ctx) {
         // a multi-threaded trial in which no two call windows overlapped did not exercise concurrency:
         // still decided (the arithmetic holds), but classed separately
         let class2 = if t > 1 && !overlapped { format!("{}/no-overlap", class) } else { class.clone() };
+        let class2 = if harness_reset { class2 } else { format!("{}/library-reset", class2) };
+        let sig = if !sig.is_empty() && !harness_reset { format!("{}/counter-left-to-the-library", sig) } else { sig };
         out::outcome(idx, &class2, if sig.is_empty() { Verdict::Held } else { Verdict::Violated }, &sig, &d);
     }
     let bo = by_outcome.iter().fold(J::new(), |j, (k, v)| j.n(k, *v));
